@@ -666,25 +666,35 @@ pub fn partial_liquidation_reply(
         position.size += Integer::new_negative(input);
     }
 
-    // reduce the traders margin
-    position.margin = position
-        .margin
-        .checked_sub(realized_pnl.value)?
-        .checked_sub(liquidation_penalty)?;
+    // reduce the traders margin by the realized loss (a realized profit is credited) and the penalty
+    let margin = if realized_pnl.is_negative() {
+        position.margin.checked_sub(realized_pnl.value)?
+    } else {
+        position.margin.checked_add(realized_pnl.value)?
+    };
+    position.margin = margin.checked_sub(liquidation_penalty)?;
 
     // calculate openNotional (it's different depends on long or short side)
     // long: unrealizedPnl = positionNotional - openNotional => openNotional = positionNotional - unrealizedPnl
     // short: unrealizedPnl = openNotional - positionNotional => openNotional = positionNotional + unrealizedPnl
     // positionNotional = oldPositionNotional - exchangedQuoteAssetAmount
-    position.notional = match position.direction {
-        Direction::AddToAmm => position
+    position.notional = match (&position.direction, realized_pnl.is_negative()) {
+        (Direction::AddToAmm, true) => position
             .notional
             .checked_sub(swap.open_notional)?
             .checked_sub(realized_pnl.value)?,
-        Direction::RemoveFromAmm => realized_pnl
+        (Direction::AddToAmm, false) => position
+            .notional
+            .checked_add(realized_pnl.value)?
+            .checked_sub(swap.open_notional)?,
+        (Direction::RemoveFromAmm, true) => realized_pnl
             .value
             .checked_add(position.notional)?
             .checked_sub(swap.open_notional)?,
+        (Direction::RemoveFromAmm, false) => position
+            .notional
+            .checked_sub(swap.open_notional)?
+            .checked_sub(realized_pnl.value)?,
     };
 
     let mut messages: Vec<SubMsg> = vec![];
